@@ -950,6 +950,7 @@ void atc_reciprocal_convolution(double *in_sklmq, double *out_sklmq,
         double *conv = (double *)malloc(nq * nq * sizeof(double));
         double *in_q, *out_q;
         double mk2;
+#pragma omp for
         for (k = 0; k < nk; k++) {
             mk2 = -1.0 * k_k[k] * k_k[k];
             for (ind = 0; ind < nq * nq; ind++) {
